@@ -111,6 +111,9 @@ def main():
             f"{pid} tier={args.tier} seed={seed} evaluations={rec.evaluations} "
             f"distinct_nontrivial={rec.distinct_nontrivial} violations={len(real)} wall={wall:.1f}s"
         )
+        if not real and rec.flaky:
+            print(f"HARNESS-ERROR property={pid}: hypothesis saw a failure that could not be reproduced (inconclusive): {rec.flaky[0]}")
+            return 2
         if real:
             for i, v in enumerate(real[:5]):
                 path = common.write_replay(pid, i, v, seed, args.tier)
